@@ -206,6 +206,27 @@ def oracle_c09(h: History):
     return out
 
 
+def oracle_no_result(h: History, prop: str):
+    """A legal simulate call made in a fault-free, single-worker phase must return a frame.
+
+    Without a frame none of the frame properties can hold for that input; the failure is
+    reported under the property whose check is running (class ``no-result``)."""
+    out = []
+    for r in h.records:
+        if r["kind"] != "SIMULATE" or r["status"] != "exc" or r["phase"] not in ("reference", "quiescent"):
+            continue
+        if r["op"].get("faults") or r.get("faults_fired"):
+            continue
+        out.append(
+            _viol(
+                prop, "no-result", r,
+                f"SIMULATE op {r['id']} ({r['op'].get('sig')}) in phase {r['phase']} raised {r.get('exc_type')}: {r.get('exc_msg')} at {r.get('exc_tb')}",
+                h.plan, extra_key=f"{r.get('exc_type')}@{(r.get('exc_tb') or ['?'])[-1]}",
+            )
+        )
+    return out
+
+
 # ======================================================================================
 # C03 - law of motion
 # ======================================================================================
